@@ -396,3 +396,45 @@ def run(index, rep, tier):
                 rep.check(ok, "R17.11", fi.qualname, "`%s` read without recomputing it" % norm(x), fn_where(fi, x), "%s: %s read after %s()" % (fi.name, norm(x), fn),
                           "%s reads `%s` on a path on which it has not called %s(): the value is whatever an earlier call left on the node, so after the edge lengths were edited the statistic is that of the OLD tree (pybus_harvey_gamma gave 0.1111 instead of -0.5238), and a tree whose ages were once computed with the check disabled is never tested for ultrametricity again" % (fi.qualname, norm(x), fn))
         rep.floor("R17.11", "reads of cached ages / root distances in the statistics", 5, n11)
+
+    # ---- R17.12 a statistic that names children by position has established how many there are
+    with rep.section("R17.12"):
+        rep.rule("R17.12", "a statistic that picks children by position has established how many there are: in treemeasure a constant subscript `_child_nodes[k]` / `child_nodes()[k]` is reachable only past a test that pins the number of children (len(...) == N on the true side, or len(...) != N / > N-1 / < N with the offending side raising) - a one-sided `> 2` lets a unifurcation through to `[1]` and the documented TypeError for non-bifurcating trees becomes an IndexError")
+        n12 = 0
+        for fi in [f for f in index.functions_in_module("dendropy.calculate.treemeasure") if f.cls is None]:
+            g = cfg_of(fi)
+            for n in g.nodes:
+                for e in node_exprs(n) + ([n.ast] if n.kind == "forinit" else []):
+                    if e is None:
+                        continue
+                    for sub in ast.walk(e):
+                        if not (isinstance(sub, ast.Subscript) and isinstance(sub.slice, ast.Constant) and isinstance(sub.slice.value, int) and sub.slice.value >= 0):
+                            continue
+                        b = sub.value
+                        if not ((isinstance(b, ast.Attribute) and b.attr == "_child_nodes") or (isinstance(b, ast.Call) and call_name(b) == "child_nodes")):
+                            continue
+                        n12 += 1
+                        k = sub.slice.value
+                        base = norm(b)
+
+                        def lens(x):
+                            return x in ("len(%s)" % base, "len(%s)" % base.replace("._child_nodes", ".child_nodes()"), "len(%s)" % base.replace(".child_nodes()", "._child_nodes"))
+
+                        def consistent_with(v):
+                            def ok(s, l, d):
+                                if s.kind == "test" and isinstance(s.ast, ast.Compare) and len(s.ast.ops) == 1 and lens(norm(s.ast.left)) and isinstance(s.ast.comparators[0], ast.Constant) and isinstance(s.ast.comparators[0].value, int):
+                                    c_ = s.ast.comparators[0].value
+                                    r = {ast.Eq: v == c_, ast.NotEq: v != c_, ast.Gt: v > c_, ast.GtE: v >= c_, ast.Lt: v < c_, ast.LtE: v <= c_}.get(type(s.ast.ops[0]))
+                                    if r is not None and l in ("t", "f"):
+                                        return r if l == "t" else not r
+                                if s.kind == "test" and isinstance(s.ast, ast.Call) and call_name(s.ast) == "is_leaf" and isinstance(s.ast.func, ast.Attribute) and norm(s.ast.func.value) == norm(b.value if isinstance(b, ast.Attribute) else b.func.value) and l in ("t", "f"):
+                                    return (v == 0) if l == "t" else (v != 0)
+                                return True
+                            return ok
+                        seen = set()
+                        for v in range(0, k + 1):
+                            seen |= set(g.reach([g.entry], follow_exc=False, edge_ok=consistent_with(v)))
+                        # leaves are excluded by an is_leaf() branch: the remaining risk is 1..k children
+                        rep.check(n not in seen or False, "R17.12", fi.qualname, "`%s[%d]` reachable with fewer than %d children" % (base, k, k + 1), fn_where(fi, sub), "%s: %s[%d] only with at least %d children" % (fi.name, base, k, k + 1),
+                                  "%s reads `%s[%d]` on a path on which no test has excluded a node with fewer than %d children: a unifurcation (out-degree one) reaches the subscript and the statistic fails with IndexError instead of the documented TypeError for trees that are not strictly bifurcating" % (fi.qualname, base, k, k + 1))
+        rep.floor("R17.12", "positional child reads in the statistics", 2, n12)
